@@ -26,6 +26,36 @@ CHECKS = {
               "repeats and nested slices are basic slices (the property's quantifier)"),
         technique="TLA+ heap model checked by TLC; spec->code behaviour replay and code->spec trace validation",
         design="9/C18"),
+    "C02": dict(
+        text=("Network.tla builds module graphs nondeterministically (kinds Sc/Lin/Mul/Split/Cat/Dot, inputs that are "
+              "signals or SignalSlices of sources and earlier outputs, shared and doubly-used signals, nested sub-networks, "
+              "any non-empty seed set) and runs the operational semantics of Network.response/sensitivity/reset (list "
+              "order, reverse order with the skip rule and add_sensitivity accumulation). TLC checks on every program in "
+              "the bounds that the sensitivity left on every source signal equals the total derivative defined "
+              "independently by forward-mode tangents, that signals no seed depends on keep None, that reset leaves "
+              "nothing and that states are untouched; negative variants (no skip rule, overwrite instead of add) are "
+              "refuted. Every emitted program is instantiated in pyMOTO (user-defined modules and EinSum/ConcatSignal, "
+              "real SignalSlice inputs, nested Networks) and the state and sensitivity of every signal after every "
+              "module's response(), sensitivity() (incl. whether _sensitivity was invoked) and reset() are compared with TLC's."),
+        note=(TLC_BASE + "; module kinds are multi-affine integer maps; None and the all-zero vector count as the same "
+              "sensitivity; correctness of an individual library module's adjoint is C01's subject"),
+        technique="TLA+ program-enumerating model checked by TLC; per-module-step replay of every emitted program in pyMOTO",
+        design="9/C02"),
+    "C04": dict(
+        text=("ModuleProto.tla is the single-module protocol machine over {Response, SetSeed(a,b), Sens, Reset} with the "
+              "seed a*w1+b*w2 and the accumulated input sensitivity alpha*g1+beta*g2 kept as coefficient pairs; TLC checks "
+              "Linear (accumulated = sum of assigned seeds over the Sens steps), StatesUntouched and ResponsePure for pure "
+              "and idempotently-masking adjoints and refutes the impure variants. Every history to a depth bound plus "
+              "simulated long histories are replayed on a fresh instance of every library-module configuration "
+              "(harness/modtable.py: filters, overhang, assembly with dense and dyadic seeds, element operators, EinSum, "
+              "ConcatSignal, complex modules, LinSolve dense/sparse/complex/multi-rhs/CG, Inverse, SystemOfEquations, "
+              "StaticCondensation, EigenSolve dense/sparse, aggregations, Scaling): after every step the input "
+              "sensitivities must equal alpha*g1+beta*g2 with TLC's coefficients (g1, g2 measured on another fresh "
+              "instance) and all states must be bit-identical where the specification says they are untouched."),
+        note=(TLC_BASE + "; modules are deterministic for fixed inputs; per-module tolerance 1e-9 (1e-6..1e-8 where a "
+              "LAPACK/ARPACK/CG solve is involved); MathGeneral and AutoMod cannot be executed (sympy/jax absent)"),
+        technique="TLA+ protocol machine checked by TLC; replay of all emitted histories on every library module configuration",
+        design="9/C04"),
 }
 
 
